@@ -481,6 +481,7 @@ func runC10(c *mon.Ctx) {
 	}
 	_ = sort.Ints
 	c10Concurrent(c, ref, maxN)
+	c10Huge(c)
 }
 
 // c10Concurrent: honest reads through tiles from eight goroutines at once, each with its own reader and
